@@ -17,6 +17,9 @@ def sh(cmd, cwd=None, env=None, timeout=1800):
     return p.returncode, p.stdout + p.stderr
 
 
+os.environ.setdefault("VERIF_EVIDENCE_DIR", "/tmp/verif_scratch_evidence")     # never overwrite the committed evidence
+
+
 def main():
     names = sys.argv[1:] or sorted(os.listdir(os.path.join(VERIF, "seeded")))
     rows = []
